@@ -55,6 +55,14 @@ def nasty_strings(rnd, n):
         for pos in (0, 4, 12):
             s = "add rax, rcx"
             out.append(s[:pos] + chr(b) + s[pos:])
+    # lines that fill the filter buffer exactly and end in short tokens (a one-character immediate, register, bracket)
+    for tail in ("5", "-5", "0x5", "rax", "[rax]", "al", "5,", ",5"):
+        for ln in (97, 98, 99, 100):
+            for mn in ("push", "add", "mov", "jmp", "shl"):
+                pad = ln - len(mn) - 1 - len(tail)
+                if pad >= 0:
+                    out.append(mn + "d" * pad + " " + tail)
+                    out.append("a" * (ln - 1 - len(tail)) + " " + tail)
     for ln in (97, 98, 99, 100, 101, 102, 150, 1000):
         out.append("mov rax, " + "1" * (ln - 9))
         out.append("mov rax, [rax+" + "r" * (ln - 15) + "]")
